@@ -82,13 +82,28 @@ static LOGGER: EvmLogger = EvmLogger;
 // ------------------------------------------------------------------------------------------------
 // Gallina printing
 // ------------------------------------------------------------------------------------------------
-/// a byte string as `bz len 0x<hex>` (two tokens; decoded by the model)
+fn words32(bs: &[u8]) -> Vec<String> {
+    bs.chunks(32)
+        .map(|c| {
+            let mut w = c.to_vec();
+            w.resize(32, 0);
+            let h = hex::encode(&w);
+            let t = h.trim_start_matches('0');
+            if t.is_empty() { "0".to_string() } else { format!("0x{}", t) }
+        })
+        .collect()
+}
+/// a byte string as `bw len [32-byte words]` (decoded by the model)
 fn coq_bytes(bs: &[u8]) -> String {
     if bs.is_empty() {
         "[]".to_string()
     } else {
-        format!("(bz {} 0x{})", bs.len(), hex::encode(bs))
+        format!("(bw {} [{}])", bs.len(), words32(bs).join("; "))
     }
+}
+/// Gallina literal of a natural number: hexadecimal when large (Coq parses long decimal literals slowly)
+fn zs(x: &BigUint) -> String {
+    if x.bits() <= 32 { x.to_string() } else { format!("0x{}", x.to_str_radix(16)) }
 }
 fn big(bs: &[u8]) -> BigUint {
     BigUint::from_bytes_be(bs)
@@ -101,7 +116,7 @@ fn tok_big(t: &TokenAmount) -> BigUint {
 }
 fn obs_bytes(o: &mut Vec<String>, bs: &[u8]) {
     o.push(bs.len().to_string());
-    o.push(if bs.is_empty() { "0".to_string() } else { format!("0x{}", hex::encode(bs)) });
+    o.extend(words32(bs));
 }
 
 // ------------------------------------------------------------------------------------------------
@@ -201,6 +216,10 @@ struct World {
     sproxy: Contract,
     cproxy: Contract,
     deployed: usize,
+    /// ID -> eth address of f410 actors seen alive (placeholders created by a call disappear again
+    /// when the message is rolled back, but their ID stays in the trace)
+    id_cache: RefCell<std::collections::HashMap<u64, [u8; 20]>>,
+    unresolved: Cell<bool>,
 }
 
 const EPOCH: i64 = 100_000;
@@ -296,7 +315,7 @@ fn new_evm_world() -> World {
     let sproxy = deploy_helper(&v, &acct, &proxy_code(true));
     let cproxy = deploy_helper(&v, &acct, &proxy_code(false));
     v.take_invocations();
-    World { v, acct, echo, reverter, sproxy, cproxy, deployed: 0 }
+    World { v, acct, echo, reverter, sproxy, cproxy, deployed: 0, id_cache: RefCell::new(Default::default()), unresolved: Cell::new(false) }
 }
 
 // ------------------------------------------------------------------------------------------------
@@ -341,12 +360,24 @@ struct Parsed {
 fn eth_of(w: &World, a: &Address) -> [u8; 20] {
     match a.payload() {
         Payload::ID(id) => {
-            if let Some(act) = w.v.actor(a) {
-                if let Some(d) = act.delegated_address {
-                    if let Payload::Delegated(da) = d.payload() {
-                        if da.namespace() == EAM_ACTOR_ID && da.subaddress().len() == 20 {
-                            return da.subaddress().try_into().unwrap();
+            match w.v.actor(a) {
+                Some(act) => {
+                    if let Some(d) = act.delegated_address {
+                        if let Payload::Delegated(da) = d.payload() {
+                            if da.namespace() == EAM_ACTOR_ID && da.subaddress().len() == 20 {
+                                let e: [u8; 20] = da.subaddress().try_into().unwrap();
+                                w.id_cache.borrow_mut().insert(*id, e);
+                                return e;
+                            }
                         }
+                    }
+                }
+                None => {
+                    if let Some(e) = w.id_cache.borrow().get(id) {
+                        return *e;
+                    }
+                    if *id >= 100 {
+                        w.unresolved.set(true);
                     }
                 }
             }
@@ -356,6 +387,13 @@ fn eth_of(w: &World, a: &Address) -> [u8; 20] {
             da.subaddress().try_into().unwrap()
         }
         _ => [0xee; 20],
+    }
+}
+
+fn cache_ids(w: &World, ts: &[InvocationTrace]) {
+    for t in ts {
+        let _ = eth_of(w, &t.to);
+        cache_ids(w, &t.subinvocations);
     }
 }
 
@@ -369,11 +407,33 @@ fn block_bytes(b: &Option<IpldBlock>) -> Vec<u8> {
 /// what the contract execution `node` asked of the outside world, and the answers it got
 fn parse_node(w: &World, me: &Address, subs: &[InvocationTrace], events: &[EmittedEvent]) -> Parsed {
     let mut p = Parsed::default();
+    w.unresolved.set(false);
     let mut i = 0;
     while i < subs.len() {
         let t = &subs[i];
         let raw_params = t.params.as_ref().map(|b| b.data.clone()).unwrap_or_default();
-        if t.method == INVOKE {
+        if t.to == EAM_ACTOR_ADDR && (t.method == 2 || t.method == 3) {
+            let (two, init, salt) = if t.method == 2 {
+                let cp: fil_actor_eam::CreateParams = t.params.as_ref().unwrap().deserialize().unwrap();
+                (false, cp.initcode, BigUint::zero())
+            } else {
+                let cp: fil_actor_eam::Create2Params = t.params.as_ref().unwrap().deserialize().unwrap();
+                (true, cp.initcode, big(&cp.salt))
+            };
+            let ok = t.exit_code.is_success();
+            let (val, ret) = if ok {
+                let r: fil_actor_eam::CreateReturn = t.return_value.as_ref().unwrap().deserialize().unwrap();
+                (big(&r.eth_address.0), vec![])
+            } else {
+                if t.exit_code.value() == 33 {
+                    p.skip = Some("unknown-revert-data".into());
+                }
+                (BigUint::zero(), vec![])
+            };
+            p.msgs.push(Msg::Create { two, value: tok_big(&t.value), salt, init });
+            p.ext.push(ExtRes { ok: true, val, ret });
+            i += 1;
+        } else if t.method == INVOKE {
             let input = raw_params;
             let ok = t.exit_code.is_success();
             let ret = if ok {
@@ -420,27 +480,6 @@ fn parse_node(w: &World, me: &Address, subs: &[InvocationTrace], events: &[Emitt
             }
         } else if t.method == fil_actor_evm::Method::GetBytecodeHash as u64 {
             i += 1; // EXTCODEHASH
-        } else if t.to == EAM_ACTOR_ADDR && (t.method == 2 || t.method == 3) {
-            let (two, init, salt) = if t.method == 2 {
-                let cp: fil_actor_eam::CreateParams = t.params.as_ref().unwrap().deserialize().unwrap();
-                (false, cp.initcode, BigUint::zero())
-            } else {
-                let cp: fil_actor_eam::Create2Params = t.params.as_ref().unwrap().deserialize().unwrap();
-                (true, cp.initcode, big(&cp.salt))
-            };
-            let ok = t.exit_code.is_success();
-            let (val, ret) = if ok {
-                let r: fil_actor_eam::CreateReturn = t.return_value.as_ref().unwrap().deserialize().unwrap();
-                (big(&r.eth_address.0), vec![])
-            } else {
-                if t.exit_code.value() == 33 {
-                    p.skip = Some("unknown-revert-data".into());
-                }
-                (BigUint::zero(), vec![])
-            };
-            p.msgs.push(Msg::Create { two, value: tok_big(&t.value), salt, init });
-            p.ext.push(ExtRes { ok: true, val, ret });
-            i += 1;
         } else if t.method == 0 {
             p.msgs.push(Msg::Selfdestruct { b: eth_of(w, &t.to) });
             p.ext.push(ExtRes { ok: t.exit_code.is_success(), val: BigUint::zero(), ret: vec![] });
@@ -449,6 +488,10 @@ fn parse_node(w: &World, me: &Address, subs: &[InvocationTrace], events: &[Emitt
             p.skip = Some(format!("unexpected-send-method-{}", t.method));
             i += 1;
         }
+    }
+    if w.unresolved.get() {
+        w.unresolved.set(false);
+        p.skip = Some("unresolvable-dst".into());
     }
     for e in events {
         let mut topics = vec![];
@@ -466,7 +509,7 @@ fn parse_node(w: &World, me: &Address, subs: &[InvocationTrace], events: &[Emitt
 }
 
 fn coq_ext(e: &ExtRes) -> String {
-    format!("Build_ext_res {} {} {}", cf::b(e.ok), e.val, coq_bytes(&e.ret))
+    format!("Build_ext_res {} {} {}", cf::b(e.ok), zs(&e.val), coq_bytes(&e.ret))
 }
 
 fn obs_msgs(o: &mut Vec<String>, p: &Parsed) {
@@ -476,20 +519,20 @@ fn obs_msgs(o: &mut Vec<String>, p: &Parsed) {
             Msg::Call { delegate, dst, value, input } => {
                 o.push("1".into());
                 o.push((*delegate as u8).to_string());
-                o.push(big(dst).to_string());
-                o.push(value.to_string());
+                o.push(zs(&big(dst)));
+                o.push(zs(value));
                 obs_bytes(o, input);
             }
             Msg::Create { two, value, salt, init } => {
                 o.push("2".into());
                 o.push((*two as u8).to_string());
-                o.push(value.to_string());
-                o.push(salt.to_string());
+                o.push(zs(value));
+                o.push(zs(salt));
                 obs_bytes(o, init);
             }
             Msg::Selfdestruct { b } => {
                 o.push("3".into());
-                o.push(big(b).to_string());
+                o.push(zs(&big(b)));
             }
         }
     }
@@ -498,7 +541,7 @@ fn obs_msgs(o: &mut Vec<String>, p: &Parsed) {
         o.push("4".into());
         o.push(topics.len().to_string());
         for t in topics {
-            o.push(t.to_string());
+            o.push(zs(t));
         }
         obs_bytes(o, data);
     }
@@ -506,8 +549,8 @@ fn obs_msgs(o: &mut Vec<String>, p: &Parsed) {
 fn obs_map(o: &mut Vec<String>, m: &BTreeMap<BigUint, BigUint>) {
     o.push(m.len().to_string());
     for (k, v) in m {
-        o.push(k.to_string());
-        o.push(v.to_string());
+        o.push(zs(k));
+        o.push(zs(v));
     }
 }
 
@@ -525,32 +568,29 @@ struct CallIn<'a> {
 fn coq_call_in(w: &World, c: &CallIn) -> String {
     let acct_id = w.acct.id().unwrap();
     let extra = match c.me {
-        Some(me) => format!(
-            "[Build_acct {} 1 {} {} {} {}]",
-            big(&me.eth), c.balance, me.code.len(), big(&keccak(&me.code)), coq_bytes(&me.code)
-        ),
-        None => "[]".to_string(),
+        Some(me) => zs(&big(&keccak(&me.code))),
+        None => "0".to_string(),
     };
     let mut seen = std::collections::HashSet::new();
     let mut hs = vec![];
     for (pre, dig) in &c.hashes {
         if seen.insert(pre.clone()) {
-            hs.push(format!("({}, {})", coq_bytes(pre), big(dig)));
+            hs.push(format!("({}, {})", coq_bytes(pre), zs(&big(dig))));
         }
     }
     format!(
         "(mkci {} {} {} {} {} {} {} {} {} {} {} {} {} {})",
         coq_bytes(c.calldata),
-        c.balance,
-        big(&c.address),
-        big(&eth_from_id(acct_id)),
-        big(&c.caller),
+        zs(&c.balance),
+        zs(&big(&c.address)),
+        zs(&big(&eth_from_id(acct_id))),
+        zs(&big(&c.caller)),
         c.value,
-        tok_big(&w.v.balance(&w.acct)),
-        big(&w.echo.eth),
-        big(&w.reverter.eth),
-        big(&keccak(&w.echo.code)),
-        big(&keccak(&w.reverter.code)),
+        zs(&tok_big(&w.v.balance(&w.acct))),
+        zs(&big(&w.echo.eth)),
+        zs(&big(&w.reverter.eth)),
+        zs(&big(&keccak(&w.echo.code))),
+        zs(&big(&keccak(&w.reverter.code))),
         cf::list(hs),
         extra,
         cf::list(c.ext.iter().map(|e| format!("({})", coq_ext(e)))),
@@ -668,6 +708,8 @@ fn direct_preview(w: &World, c: &Contract, calldata: &[u8], value: u64) -> Optio
         Some((code, data, es.stack.len(), es.memory.len()))
     }));
     v.fail_plan.replace(None);
+    cache_ids(w, &ctx.subinvocations.borrow());
+    w.unresolved.set(false);
     v.rollback(root);
     match res {
         Ok(x) => x,
@@ -944,7 +986,7 @@ fn run_case(w: &mut World, pc: &PCase) -> CaseOut {
                     hashes,
                     ext: &parsed.ext,
                 };
-                let mut o = vec![flag.to_string()];
+                let mut o = vec![zs(&flag)];
                 obs_bytes(&mut o, &data);
                 obs_msgs(&mut o, &parsed);
                 steps.push((format!("InvokeStatic {}", coq_call_in(w, &ci)), o));
